@@ -36,6 +36,11 @@ var scenarios = map[string]scenario{
 	"d11-terminate-renewed": {run: scenarioD11},
 	"d23-renew-during-migration": {run: scenarioD23},
 	"d24-renew-after-revoked-grant": {run: scenarioD24},
+	// scripted life cycles that combine steps the random generators rarely line up (no finding attached)
+	"flow-debt-claim":     {run: flowDebtClaim},
+	"flow-renew2-migrate": {run: flowRenew2Migrate},
+	"flow-fault-not-held": {run: flowFaultNotHeld, genesis: func(g *GenesisSpec) { g.NodeParams.FishmenInfo = g.Accounts[10].Bech() }},
+	"flow-forged-owner":   {run: flowForgedOwner},
 }
 
 // D17: a signature the victim once produced over an unrelated text is accepted as the
@@ -371,5 +376,128 @@ func scenarioD23(r *Recorder, accts []*Account) {
 	r.BeginBlock()
 	p := saotypes.TerminateProposal{Owner: o.did, DataId: dataA}
 	r.Terminate(m.gw, &saotypes.MsgTerminate{Creator: m.gw.Bech(), Proposal: p, JwsSignature: SignJWS(&p, o.key, o.kid), Provider: m.gw.Bech()})
+	r.EndBlock()
+}
+
+
+// A provider that cannot pay a renewal's collateral top-up goes into debt; it then claims twice in
+// consecutive blocks (the first claim nets the debt out of the reward), and finally the model is
+// terminated (the release settles what is left of the debt out of the collateral).
+func flowDebtClaim(r *Recorder, accts []*Account) {
+	m := newMiniWorld(r, accts, 1)
+	p := m.providers[0]
+	o := m.owners[0]
+	r.BeginBlock()
+	m.store(o, dataA, dataA, 1, 1000000, 1, 3600, 100)
+	m.completeAll()
+	bal := r.c.App.BankKeeper.GetBalance(r.c.deliverCtx(), p.Addr, Denom).Amount.Int64()
+	r.Send(p, accts[8], bal-100)
+	m.renew(o, dataA, 36000)
+	r.EndBlock()
+	r.Blocks(5)
+	r.BeginBlock()
+	r.ClaimReward(p)
+	r.EndBlock()
+	r.BeginBlock()
+	r.ClaimReward(p)
+	r.EndBlock()
+	r.Blocks(3)
+	r.BeginBlock()
+	tp := saotypes.TerminateProposal{Owner: o.did, DataId: dataA}
+	r.Terminate(m.gw, &saotypes.MsgTerminate{Creator: m.gw.Bech(), Proposal: tp, JwsSignature: SignJWS(&tp, o.key, o.kid), Provider: m.gw.Bech()})
+	r.ClaimReward(p)
+	r.EndBlock()
+}
+
+// Two renewals queued on one shard, then the provider hands the shard over by migration and the new
+// provider completes it: every queued renewal order must now list the new shard.
+func flowRenew2Migrate(r *Recorder, accts []*Account) {
+	m := newMiniWorld(r, accts, 2)
+	o := m.owners[0]
+	r.BeginBlock()
+	m.store(o, dataA, dataA, 1, 1000000, 1, 3600, 100)
+	m.completeAll()
+	r.EndBlock()
+	r.BeginBlock()
+	m.renew(o, dataA, 3600)
+	r.EndBlock()
+	r.BeginBlock()
+	m.renew(o, dataA, 4000)
+	r.EndBlock()
+	r.BeginBlock()
+	for _, sh := range m.w.ctxShards() {
+		if sp := m.w.acctByAddr(sh.Sp); sp != nil && sh.Status == 2 {
+			r.Migrate(sp, sp.Bech(), []string{dataA})
+			break
+		}
+	}
+	r.EndBlock()
+	r.BeginBlock()
+	m.completeAll()
+	r.EndBlock()
+	r.Blocks(3)
+}
+
+// Fault reports about shards the accused does not hold: one that is only assigned (never completed)
+// and, after the order's timeout re-assigned it, the timed-out entry of the old provider. Neither may
+// be recorded; reports about the providers that completed are (controls).
+func flowFaultNotHeld(r *Recorder, accts []*Account) {
+	m := newMiniWorld(r, accts, 3)
+	o := m.owners[0]
+	fishman := accts[9]
+	r.BeginBlock()
+	r.NodeCreate(fishman)
+	m.store(o, dataA, dataA, 1, 1000000, 2, 3600, 8)
+	r.EndBlock()
+	r.BeginBlock()
+	// the first assigned provider completes, the second stays silent
+	done := ""
+	for _, sh := range m.w.ctxShards() {
+		if sp := m.w.acctByAddr(sh.Sp); sp != nil && sh.Status == 0 && done == "" {
+			r.Complete(sp, sp.Bech(), 1, goodCid2, sh.Size_)
+			done = sh.Sp
+		}
+	}
+	r.EndBlock()
+	report := func() {
+		for _, sh := range m.w.ctxShards() {
+			f := &saotypes.Fault{DataId: dataA, OrderId: 1, ShardId: sh.Id, CommitId: "lost", Provider: sh.Sp, Reporter: fishman.Bech()}
+			r.ReportFaults(fishman, sh.Sp, []*saotypes.Fault{f})
+		}
+	}
+	r.BeginBlock()
+	report()
+	r.EndBlock()
+	r.Blocks(10) // the silent provider's shard times out and is re-assigned
+	r.BeginBlock()
+	m.completeAll()
+	r.EndBlock()
+	r.BeginBlock()
+	report()
+	r.EndBlock()
+}
+
+// Requests that name the real owner in the proposal but carry the header and signature of an unrelated
+// did:key: a permission update granting the forger read-write access, then the forger's own update and
+// terminate, a renewal and a terminate forged the same way.
+func flowForgedOwner(r *Recorder, accts []*Account) {
+	m := newMiniWorld(r, accts, 1)
+	o, forger := m.owners[0], m.owners[2]
+	r.BeginBlock()
+	m.store(o, dataA, dataA, 1, 1000000, 1, 3600, 100)
+	m.completeAll()
+	r.EndBlock()
+	r.BeginBlock()
+	pp := saotypes.PermissionProposal{Owner: o.did, DataId: dataA, ReadwriteDids: []string{forger.did}}
+	r.UpdatePermission(m.gw, &saotypes.MsgUpdataPermission{Creator: m.gw.Bech(), Proposal: pp, JwsSignature: SignJWS(&pp, forger.key, forger.kid), Provider: m.gw.Bech()})
+	rp := saotypes.RenewProposal{Owner: o.did, Duration: 3600, Timeout: 10, Data: []string{dataA}}
+	r.Renew(m.gw, &saotypes.MsgRenew{Creator: m.gw.Bech(), Proposal: rp, JwsSignature: SignJWS(&rp, forger.key, forger.kid), Provider: m.gw.Bech()})
+	r.EndBlock()
+	r.BeginBlock()
+	m.store(forger, dataA, dataA+"|bbbbbbbb-comm-4000-8000-00000000000b", 1, 1000000, 1, 3600, 100)
+	tp := saotypes.TerminateProposal{Owner: o.did, DataId: dataA}
+	r.Terminate(m.gw, &saotypes.MsgTerminate{Creator: m.gw.Bech(), Proposal: tp, JwsSignature: SignJWS(&tp, forger.key, forger.kid), Provider: m.gw.Bech()})
+	tp2 := saotypes.TerminateProposal{Owner: forger.did, DataId: dataA}
+	r.Terminate(m.gw, &saotypes.MsgTerminate{Creator: m.gw.Bech(), Proposal: tp2, JwsSignature: SignJWS(&tp2, forger.key, forger.kid), Provider: m.gw.Bech()})
 	r.EndBlock()
 }
